@@ -278,6 +278,20 @@ func redirectOf(v *resp.V) (kind, addr string) {
 	return "", ""
 }
 
+// selfAddressedMoved reports whether some command of the batch was answered "MOVED <slot> <addr>" by the node at <addr>.
+func selfAddressedMoved(hops map[string][]*hop) bool {
+	for _, hs := range hops {
+		for _, h := range hs {
+			if h.Reply != nil && h.Reply.T == '-' {
+				if f := strings.Fields(h.Reply.S); len(f) == 3 && f[0] == "MOVED" && f[2] == h.Node {
+					return true
+				}
+			}
+		}
+	}
+	return false
+}
+
 func hopStrings(hs []*hop) []string {
 	var s []string
 	for _, h := range hs {
@@ -843,7 +857,13 @@ func evaluate(run *mon.Run, spec *caseSpec, items []item, nres int, events []fak
 			return wit(m)
 		}
 		if errStr != "" && !isRedis {
-			if !spec.Transport {
+			if !spec.Transport && strings.Contains(errStr, "closing") && selfAddressedMoved(a.hops) {
+				// A MOVED that names the node it came from makes the client open a second connection to that address and
+				// close the first one five WALL-CLOCK seconds later (cluster.go redirectOrNew); members of the batch that
+				// are retried on the first connection get ErrClosing when the case takes longer than that on a loaded
+				// machine. What happens then depends on real time, which no verdict here may rest on: counted, not judged.
+				run.Observe("closing_errors_after_self_addressed_moved_not_judged", 1)
+			} else if !spec.Transport {
 				run.Violation("client-made-error-without-fault", fkey(firstLine(errStr)), w1(map[string]any{}))
 			} else {
 				run.Observe("transport_errors_returned", 1)
